@@ -1,6 +1,7 @@
 SPECIFICATION Spec
 CONSTANT KS = {0, 2}
 CONSTANT NES = {1, 2, 3, 4, 5, 6, 7, 8, 9, 10, 11, 12}
+CONSTANT MaxCells = 99
 INVARIANT BeforeConsistent
 INVARIANT ImplSatisfiesD
 INVARIANT ResultConsistent
